@@ -178,19 +178,19 @@ def units():
     for enc, host in [("sc", "s"), ("uc", "s"), ("let", "s"), ("bet", "s"), ("lei", "s"), ("bei", "s"),
                       ("sc", "i"), ("uc", "i"), ("bes", "i"), ("les", "i"), ("bet", "i"), ("let", "i")]:
         U.append(kernel_unit("%s2%s_array" % (enc, host), CT[enc], CT[host], "scd",
-                             reader_rule(enc, host), ["C02", "C01", "C19"]))
+                             reader_rule(enc, host), ["C02", "C01"]))
     # integer writers
     for host, enc in [("s", "sc"), ("s", "uc"), ("s", "let"), ("s", "bet"), ("s", "lei"), ("s", "bei"),
                       ("i", "sc"), ("i", "uc"), ("i", "bes"), ("i", "les"), ("i", "let"), ("i", "bet")]:
         U.append(kernel_unit("%s2%s_array" % (host, enc), CT[host], CT[enc], "sdc",
-                             writer_rule(host, enc), ["C02", "C01", "C19"]))
+                             writer_rule(host, enc), ["C02", "C01"]))
     # integer -> float/double readers: value * normfact (normfact chosen by the caller, see pcm_read_* units)
     for host in ("f", "d"):
         for enc in ENC:
             nm = "%s2%s_array" % (enc, host)
             slow = nm in SLOW
             U.append(kernel_unit(nm, CT[enc], CT[host], "scd",
-                                 fread_rule(enc, host), ["C02", "C19"],
+                                 fread_rule(enc, host), ["C02"],
                                  extra_params=", %s normfact" % CT[host],
                                  extra_req="__CPROVER_requires (normfact > 0 && normfact <= 1)", backend="kissat",
                                  timeout=3600 if slow else 600, tier="thorough" if slow else "quick", note="structural FP"))
@@ -198,7 +198,7 @@ def units():
                 U.append(elem_unit(nm, CT[enc], CT[host], "scd", fread_rule(enc, host), ["C02"],
                                    extra_params=", %s normfact" % CT[host], extra_assume="normfact > 0 && normfact <= 1",
                                    backend="cvc5"))
-                U.append(frame_unit(nm, CT[enc], CT[host], "scd", ["C02", "C19"], extra_params=", %s normfact" % CT[host]))
+                U.append(frame_unit(nm, CT[enc], CT[host], "scd", ["C02"], extra_params=", %s normfact" % CT[host]))
     # float/double -> integer writers
     for host in ("f", "d"):
         for enc in ENC:
@@ -212,9 +212,9 @@ def units():
                 if slow:
                     U.append(elem_unit(nm, CT[host], CT[enc], "sdc", post, ["C02"], extra_params=", int normalize",
                                        drop_flags=["--signed-overflow-check"]))
-                    U.append(frame_unit(nm, CT[host], CT[enc], "sdc", ["C02", "C19"], extra_params=", int normalize",
+                    U.append(frame_unit(nm, CT[host], CT[enc], "sdc", ["C02"], extra_params=", int normalize",
                                         drop_flags=["--signed-overflow-check"]))
-                U.append(kernel_unit(nm, CT[host], CT[enc], "sdc", post, ["C02", "C19"],
+                U.append(kernel_unit(nm, CT[host], CT[enc], "sdc", post, ["C02"],
                                      extra_params=", int normalize", rule_inv=inv,
                                      timeout=3600 if slow else 900, tier="thorough" if slow else "quick",
                                      backend="kissat", drop_flags=["--signed-overflow-check"],
